@@ -145,7 +145,13 @@ func (e *Engine) addCover(st *State, name, src string) {
 }
 
 func (e *Engine) oblPrefix(fn *ssa.Function) string {
-	return e.P.funcDisplay(fn)
+	d := e.P.funcDisplay(fn)
+	if e.unit != nil && fn == e.unit.Fn && e.unit.C != nil {
+		if i := strings.Index(e.unit.C.Key, "@"); i > 0 {
+			d += e.unit.C.Key[i:]
+		}
+	}
+	return d
 }
 
 // ---- loops
@@ -834,6 +840,10 @@ func (e *Engine) anchorsOf(fn *ssa.Function) map[ssa.Instruction]string {
 				}
 			case *ssa.MapUpdate:
 				key = "mapupdate"
+			case *ssa.Lookup:
+				if _, ok := x.X.Type().Underlying().(*types.Map); ok {
+					key = "lookup"
+				}
 			case *ssa.Panic:
 				key = "panic"
 			}
